@@ -4,6 +4,31 @@ NOTES = ("Every check re-checks the Coq theorems of coq/Props/<id>.v (full .vo b
          "See DESIGN.md for the trusted base and known_findings.json for recorded defects.")
 NOT_APPLICABLE = {}
 CLAIMED = {
+ "C09": {
+  "text": "Partial. Proved: rand.Intn over any raw stream is in [0,n); dice(n) is an integer in [1,n] for every n >= 1, "
+          "random_range(a,b) an integer in [a,b] for every a <= b whose width fits an int, wider or empty ranges are "
+          "errors; every seed over [0-9a-z] is accepted (base 36 with int64 wrap-around written into the model). "
+          "Determinism across executions and processes is a property of the Go runtime: the model is a function of "
+          "(dialogue, seed-derived stream, choices, host) and the correspondence family compares it with repeated "
+          "in-process executions and a fresh child process. random() in [0,1) is not proved (float rounding of "
+          "Int63/2^63) and is checked on every generated value by the comparison with the model.",
+  "design_ref": "DESIGN.md section 5, C09",
+  "note": "math/rand's source is an oracle stream; only the first 64 raw values are supplied per case.",
+  "technique": "Coq proof of range theorems + differential correspondence check with repeated and child-process executions",
+ },
+ "C02": {
+  "text": "Partial. Proved for the evaluator model: a binary operation on values is exactly the operator table (unless "
+          "the left operand of and/or already decides), operands of different types are an error for all 14 operators, "
+          "unary operators, laziness of and/or (the right operand's host calls do not happen), function arguments are "
+          "evaluated left to right, each once, stopping at the first failure, then the call. Not proved: that the "
+          "ANTLR grammar and the listener's callback stack group operators by the stated precedence - the "
+          "correspondence family prints trees with minimal/redundant parentheses and every operator spelling and "
+          "requires parse(print(tree)) = tree from the implementation's own parser before comparing values.",
+  "design_ref": "DESIGN.md section 5, C02",
+  "note": "Numbers are Flocq binary64 with round-to-nearest-even; math.Mod is an exact remainder model. Axioms: the four "
+          "stdlib axioms behind Flocq's reals.",
+  "technique": "Coq proof of the operator table and evaluation order + differential correspondence check with AST round trip",
+ },
  "C13": {
   "text": "Partial. The model mirrors markup/line_parser.go function by function (markers, properties of every value "
           "type, escapes, replacement markers and processors, close-by-name matcher, character prefix, trimming and "
